@@ -781,6 +781,13 @@ pub fn record_net(seed: u64, tier: &str, trace: &mut Vec<Value>, rep: &mut Repor
         if accepted == 0 {
             continue;
         }
+        // ---- set_activation on a random layer (also invalid ones: max-pool, block, out of range) ----
+        if rng.below(3) == 0 {
+            let layer = rng.below(net.layers.len() as u64 + 1) as usize;
+            let act = if rng.below(2) == 0 { "linear" } else { "relu" };
+            let got = guarded(|| net.set_activation(layer, crate::layers::activation(act)));
+            trace.push(json!({"event": "SetActivation", "layer": layer + 1, "act": act, "outcome": if got.is_ok() { "ok" } else { "panic" }}));
+        }
         // ---- connections ----
         let n = net.layers.len();
         let count_in = |net: &Network, i: usize| -> usize { announced(net, i).map(|a| a.0.iter().product()).unwrap_or(0) };
